@@ -550,11 +550,12 @@ func boundedText(v ssa.Value, tokT string, depth int) bool {
 			}
 			// the current HTML token: tokenStart[:tokenLen] of one tokenizer object
 			if hs, ok := x.High.(*ssa.UnOp); ok {
-				if hf, ok := hs.X.(*ssa.FieldAddr); ok {
-					if xs, ok := x.X.(*ssa.UnOp); ok {
-						if xf, ok := xs.X.(*ssa.FieldAddr); ok && xf.X == hf.X && x.Low == nil && fieldName(xf) == tokFields[0] && fieldName(hf) == tokFields[1] {
-							return true
-						}
+				if xs, ok := x.X.(*ssa.UnOp); ok {
+					hf, okh := ssax.AsFieldAddr(hs.X)
+					xf, okx := ssax.AsFieldAddr(xs.X)
+					// (fields of an embedded struct count as fields of the object)
+					if okh && okx && xf.Base == hf.Base && x.Low == nil && xf.Field == tokFields[0] && hf.Field == tokFields[1] {
+						return true
 					}
 				}
 			}
